@@ -125,6 +125,11 @@ def gfa_layout(text):
         for rest in by_from.values():      # links of segments without an S line (left as they are)
             out += rest
         lines = out
+    if h in (1, 3):
+        # a graph cut out of a larger one keeps links to segments that are not in the file: they are no links of THIS graph
+        k = next((i for i, l in enumerate(lines) if l.startswith("S\t")), None)
+        if k is not None:
+            lines.append(f"L\t{lines[k].split(chr(9))[1]}\t+\tsegment_not_in_this_file\t+\t0M")
     if h in (2, 3) and not any(l.startswith(("P\t", "W\t")) for l in lines):
         # path / walk / comment records may stand anywhere: here between the first segment and the rest of the graph
         k = next((i for i, l in enumerate(lines) if l.startswith("S\t")), None)
@@ -180,7 +185,7 @@ def workdir(prefix, key):
     except OSError:
         other = False
     # one case in four works in a directory whose name has blanks and non-ASCII characters in it
-    odd = "my data \u00e9\u00fc " if zlib.crc32(("wdname" + str(key)).encode()) % 4 == 1 else ""
+    odd = "my data.v2 \u00e9\u00fc " if zlib.crc32(("wdname" + str(key)).encode()) % 4 == 1 else ""
     if other and zlib.crc32(("wd" + str(key)).encode()) % 5 == 0:
         return tempfile.mkdtemp(prefix="verif_" + odd + prefix, dir=shm)
     return tempfile.mkdtemp(prefix=odd + prefix)
